@@ -300,6 +300,11 @@ mutant("c04-scope-per-symbol", "C04", CAF, "        syms = jax_export.symbolic_s
 benign("c04-benign-tag-rename", "C04", LDF, 'key = f"coeff_term:{term}"', 'key = f"term_with_coefficient:{term}"')
 
 # ----------------------------------------------------------------------------- C06
+FLF = "jax2onnx/plugins/jax/lax/fori_loop.py"
+mutant("c06-fori-trip-count-ignores-lower", "C06", FLF, "        trip_count = int(np.asarray(upper).item()) - int(np.asarray(lower).item())", "        trip_count = int(np.asarray(upper).item())", expect="R-C06e")
+mutant("c06-fori-index-offset-dropped", "C06", FLF, "    if lower != 0:\n        lower_const = _scalar_i64(body_ctx, int(lower), \"fori_lower\")", "    if lower != 0 and False:\n        lower_const = _scalar_i64(body_ctx, int(lower), \"fori_lower\")", expect="R-C06e")
+mutant("c06-fori-bind-lower-zero", "C06", FLF, "            lower=int(lower),\n        )\n        return tree_util.tree_unflatten(treedef, flat_result)", "            lower=0,\n        )\n        return tree_util.tree_unflatten(treedef, flat_result)", expect="R-C06e")
+benign("c06-benign-fori-trip-count-names", "C06", FLF, "        trip_count = int(np.asarray(upper).item()) - int(np.asarray(lower).item())", "        hi = int(np.asarray(upper).item())\n        lo = int(np.asarray(lower).item())\n        trip_count = hi - lo")
 multi("c06-scan-trip-count-from-scatter-extent", "C06", "mutant", [("jax2onnx/plugins/jax/lax/scan.py", "        if trip_count_int is not None:\n            trip_count_val = _scalar_i64(ctx, trip_count_int, \"scan_trip_count\")\n        else:\n            first_seq_val = ctx.get_value_for_var(seq_invars[0])\n            shape_val = _shape_of(ctx, first_seq_val, \"scan_seq_shape\")\n            trip_count_val = _gather_int_scalar(ctx, shape_val, 0, \"scan_trip_dynamic\")", "        if scatter_static_extent is None:\n            if trip_count_int is not None:\n                trip_count_val = _scalar_i64(ctx, trip_count_int, \"scan_trip_count\")\n            else:\n                first_seq_val = ctx.get_value_for_var(seq_invars[0])\n                shape_val = _shape_of(ctx, first_seq_val, \"scan_seq_shape\")\n                trip_count_val = _gather_int_scalar(ctx, shape_val, 0, \"scan_trip_dynamic\")")], expect="trip-count")
 LAXD = "jax2onnx/plugins/jax/lax/"
 mutant("c06-cond-branches-swapped-at-unpack", "C06", LAXD + "cond.py", '        false_closed, true_closed = params["branches"]', '        true_closed, false_closed = params["branches"]', expect="then-else")
